@@ -78,6 +78,7 @@ RouteTp(route, frag, leafName, nextName) ==
 FragNeedsTop(pos) == pos \in {"macroarg", "macrodefault"}
 RouteKeepsTop(route) == route \in {"direct", "include", "includeonly", "includewith", "extendsbody"}
 
+ModCall == {"modcall", "modcall2"}
 Policies == {"forbid", "allow", "empty"}
 AllowF(pol)  == CASE pol = "forbid" -> {"sf", "upper", "default"} [] pol = "allow" -> {"sf", "upper", "default", "sfx", "sfz"} [] OTHER -> {}
 AllowFn(pol) == CASE pol = "forbid" -> {"sp", "mm", "mw", "parent"} [] pol = "allow" -> {"sp", "mm", "mw", "parent", "spx"} [] OTHER -> {}
@@ -85,10 +86,9 @@ AllowFn(pol) == CASE pol = "forbid" -> {"sp", "mm", "mw", "parent"} [] pol = "al
 Cases == {[pos |-> pos, kind |-> kind, route |-> route, pol |-> pol, r2 |-> "none"]
             : pos \in Positions, kind \in {"fn", "filter"}, route \in Routes1, pol \in Policies}
          \cup (IF Depth2 THEN {[pos |-> pos, kind |-> kind, route |-> route, pol |-> pol, r2 |-> r2]
-            : pos \in {"print", "chainlast", "forseq", "apply", "ifcond", "macroarg"}, kind \in {"fn", "filter"},
+            : pos \in Positions \ ModCall, kind \in {"fn", "filter"},
               route \in {"include", "includeonly", "import", "extendsblock"},
-              r2 \in {"include", "includeonly", "extendsbody", "parent", "from", "localmacro"}, pol \in {"forbid", "allow"}} ELSE {})
-ModCall == {"modcall", "modcall2"}
+              r2 \in Routes1 \ {"direct"}, pol \in {"forbid", "allow"}} ELSE {})
 Valid(c) ==
     /\ (c.pos \in OnlyFilter => c.kind = "filter")
     /\ (c.pos \in ModCall => c.kind = "fn" /\ c.pol = "forbid" /\ c.r2 = "none"
